@@ -123,6 +123,14 @@ def mods():
         _w["engine"] = "c"
     _w["c"] = c
     _w["py"] = py_common
+    _w["emu"] = None
+    if _w["engine"] == "c":
+        # keep the secondary engine honest: it must agree with the real C build on the whole M1 workload
+        try:
+            from .. import pyxemu
+            _w["emu"] = pyxemu.load()
+        except Exception:
+            _w["emu"] = None
     return _w
 
 
@@ -148,9 +156,18 @@ def m_m1(ctx, case):
     c, py = w["c"], w["py"]
     fn = case["fn"]
     fc, fp = getattr(c, fn), getattr(py, fn)
+    fe = getattr(w["emu"], fn, None) if w.get("emu") is not None else None
     for args in case["args"]:
         rc, rp = call(fc, *args), call(fp, *args)
         ctx.ev(2)
+        if fe is not None:
+            re_ = call(fe, *args)
+            ctx.hit("emu_vs_c_compared")
+            if (re_[0], re_[1]) != (rc[0], rc[1]) and not (fn == "cprNL" and cpr.near_transition(float(args[0]))):
+                ctx.hit("emu_vs_c_disagree")
+                ctx.notes.setdefault("emulator_disagreements", [])
+                if len(ctx.notes["emulator_disagreements"]) < 5:
+                    ctx.notes["emulator_disagreements"].append({"fn": fn, "args": args, "c": repr(rc), "emu": repr(re_)})
         if not eq(fn, rc, rp):
             key = "m1-%s-differs" % fn
             a0 = args[0] if args else None
